@@ -470,6 +470,9 @@ void runScenario(const Json::Value& sc, Json::Value& out) {
       if (::fgets(b, sizeof(b), f)) savedLimit = b;
       ::fclose(f);
     }
+    // a harness process that died between the two writes of an earlier run would have left the small value behind: never
+    // take such a value for the system's own (the kernel default is 16384)
+    if (!savedLimit.empty() && atol(savedLimit.c_str()) < 1024) savedLimit = "16384\n";
     if (!savedLimit.empty()) {
       if (FILE* f = ::fopen(kSysctl, "w")) {
         limitOk = ::fprintf(f, "%d\n", qlimit) > 0;
